@@ -20,6 +20,19 @@ CLAIMED = {
             "on the implementation are the search step",
             "Coq proof over a hand-written executable model + generated-table lemmas + differential correspondence", "DESIGN.md 3/C12"),
 }
+CLAIMED.update({
+    "C14": ("Theorems in Props/C14.v over Spec/UpdateSem.v: every contribution applied exactly once (accumulating duplicates), untouched "
+            "elsewhere, set_at leaves a competing value, and the source's multiplier loop (regenerated into Gen/GenRavel.v) yields the "
+            "row-major index; einx results on generated *_at/get_at calls with colliding coordinates are compared with the extracted spec",
+            "Coq proof on the update semantics + regenerated kernel lemma + value correspondence", "DESIGN.md 3/C14"),
+    "C09": ("Finite-table theorems (Props/C09.v, vm_compute over tables regenerated from the source): mutating numpy primitives are wrapped "
+            "in-place and reachable from the update_at family only; dynamic snapshot comparison of all arguments over 4 memory layouts, "
+            "3 backends, run and graph=True, solve_*/matches",
+            "Coq theorems over regenerated tables + snapshot correspondence", "DESIGN.md 3/C09"),
+    "C16": ("Order-independence theorem for accumulating updates (and the refutation for set_at) in Props/C16.v; generated calls incl. "
+            "deliberately colliding coordinates executed in fresh processes under 8/50 PYTHONHASHSEED values, digests compared",
+            "Coq theorem on the only order-sensitive choice point + cross-process digest comparison", "DESIGN.md 3/C16"),
+})
 EXTRA_NOTES = {}
 
 
